@@ -1158,6 +1158,16 @@ M('sweep11.http.no_loop', ['C12'], 'emitter/otlp/src/client/http.rs',
   '        while BufNext(frame, &mut body, &mut trailer).await? {}',
   '        let _ = BufNext(frame, &mut body, &mut trailer).await?;', 'C12.R5:response-read-to-end')
 
+M('sweep11.http.end_stream_pending_true', ['C12'], 'emitter/otlp/src/client/http.rs',
+  '            (Some(_), _) | (_, Some(_)) => false,',
+  '            (Some(_), _) | (_, Some(_)) => true,', 'C12.R10:end-of-request-body')
+M('sweep11.http.end_stream_done_false', ['C12'], 'emitter/otlp/src/client/http.rs',
+  '            (Some(_), _) | (_, Some(_)) => false,\n            _ => true,',
+  '            (Some(_), _) | (_, Some(_)) => false,\n            _ => false,', 'C12.R10:end-of-request-body')
+M('sweep11.http.end_stream_only_frame', ['C12'], 'emitter/otlp/src/client/http.rs',
+  '            (Some(_), _) | (_, Some(_)) => false,',
+  '            (Some(_), _) => false,', 'C12.R10:end-of-request-body')
+
 # ---- round 6 (own probing of the blocking entry points): Trigger, send_or_wait, callbacks ------------------------------------------
 M("C07.wait_zero_timeout_reports_flushed", ["C07"], "batcher/src/sync.rs",
   "            if timeout == Duration::ZERO {\n                return false;", "            if timeout == Duration::ZERO {\n                return true;", "C07.R4:Trigger")
